@@ -109,8 +109,11 @@ class WorkflowEnd(Unit):
         def thunk(e):
             e.overrides[json_util.deepcopy] = lambda eng, v: _copy_keep_leaves(v)
             seq = [{"id": "a", "route": 0, "ctxs": {"in": [0]}, "prev": {}, "next": {}, "status": st.SUCCEEDED}]
+            # later terminal records share non-root deltas with the first one (a delta superseded on the
+            # way to a later terminal task must be applied again, in that task's own order)
+            term_ctxs = [[0, 1, 2], [0, 2, 3], [0, 3, 1]]
             for k in range(n_term):
-                seq.append({"id": "t%d" % k, "route": 0, "ctxs": {"in": [0, k + 1]}, "prev": {}, "next": {},
+                seq.append({"id": "t%d" % k, "route": 0, "ctxs": {"in": list(term_ctxs[k])}, "prev": {}, "next": {},
                             "status": st.SUCCEEDED, "term": True})
             calls = []
 
@@ -150,7 +153,7 @@ class WorkflowEnd(Unit):
             if status_c not in st.COMPLETED_STATUSES:
                 ctx.oblige("C06.term_ctx.fold", raised is not None and raised.cls is exc.WorkflowContextError, None, info)
             else:
-                want_calls = ([[0, 1]] + [[k + 1] for k in range(1, n_term)]) if n_term else []
+                want_calls = ([term_ctxs[0]] + [term_ctxs[k][1:] for k in range(1, n_term)]) if n_term else []
                 ok = raised is None and calls == want_calls
                 if ok and n_term == 0:
                     ok = tctx == {}
